@@ -39,9 +39,9 @@ type Outcome struct {
 	// (any other error), "timeout" (nothing happened)
 	Class    string
 	Version  uint16
-	Data     protocol.VersionData       // finished: the peer's version data handed to FinishedFunc
-	Versions []uint16                   // mismatch: the refusal list as received, in wire order
-	RefVer   uint16                     // decode-error / refused: version named in the refusal
+	Data     protocol.VersionData        // finished: the peer's version data handed to FinishedFunc
+	Versions []uint16                    // mismatch: the refusal list as received, in wire order
+	RefVer   uint16                      // decode-error / refused: version named in the refusal
 	QueryMap protocol.ProtocolVersionMap // query: decoded reply
 	Err      string
 }
